@@ -273,7 +273,7 @@ Section Facts.
     - intros _ i Hi Hf. destruct (H (i - 1)%nat ltac:(lia)) as [Hc _]. rewrite Hc in Hf. discriminate.
   Qed.
   Lemma finite_regime d o p v1 N : stays_finite d p v1 N -> regime_from d o p v1 0 N.
-  Proof. intros H. apply finite_regime_from; [exact H|lia]. Qed.
+  Proof. intros H. apply (finite_regime_from d o p v1 N 0 N H). lia. Qed.
 
   (* ================================================================== subroutine solve_t as a whole *)
   (* the values the iteration starts from: the endogenous values of period p + offset copied into period p *)
